@@ -121,9 +121,14 @@ class FakeSocket(socket.socket):
         return e
 
 
+WATCHDOG_HITS = [0]
+
+
 def run_reader(p, stream, cfg, k):
     """k successive read() calls; returns list of (handler_tags, result) with result = ('Y', raw, parsed) | ('E',) | ('R', tag) | ('F', repr)"""
     v, q, l, pa = cfg
+    if WATCHDOG_HITS[0] >= 3:          # non-termination already established three times: do not burn the budget on more
+        return [([], ("F", "skipped: read() did not finish within 8 s in three earlier cases"))], None
     calls = []
     rd = p.RTCMReader(stream, validate=v, quitonerror=q, labelmsm=l, parsed=pa, errorhandler=lambda e: calls.append(vlib.exc_tag(e)))
     out = []
@@ -135,6 +140,7 @@ def run_reader(p, stream, cfg, k):
             res = ("E",) if raw is None and parsed is None else ("Y", raw, parsed)
         except vlib.WatchdogTimeout as e:
             res = ("F", "read() did not finish within 8 s")
+            WATCHDOG_HITS[0] += 1
             out.append((list(calls), res))
             break
         except Exception as e:  # noqa
@@ -570,6 +576,10 @@ def main():
                     cfg = (1, rng.choice([0, 1, 2]), 1, True)
                     res, st = add_file_case(em, p, data, sched, cfg, len(items) + 5, "single fault (%s) at stream call %d" % (fk, ci))
                     check_C01(em, data, res, cfg, "fault %s at call %d" % (fk, ci))
+                    # ... and on a real, seekable BytesIO with the same short read (direct only), the caller reading on after (None, None)
+                    if d:
+                        res_b, _ = run_reader(p, FBytesIO(data, sched), cfg, len(items) + 8)
+                        check_C01(em, data, res_b, cfg, "short read (%s bytes) at call %d of a seekable stream, reading on afterwards" % (d, ci))
                     em.count("fault." + str(fk))
             for _ in range(4 if thorough else 1):
                 sched = [rng.choice([None, None, None, 0, 1, 2, 5]) for _ in range(rng.randrange(5, 60))]
@@ -1000,6 +1010,23 @@ def main():
                         m_a = m_b = None
                     if m_a is not None and (m_b.payload != b_pl or m_a.payload != a_pl):
                         em.violation("C17: static parse with validate=0 returns another frame's message", {"frame": fb_bad.hex(), "previous": fa.hex()}, {})
+            # validation off must also hold with an error handler registered and in raise mode: wrong-checksum frames are not errors
+            if it % 2 == 1:
+                for q_ in (0, 1, 2):
+                    seen = []
+                    try:
+                        got_ = [(r_, None if m_ is None else m_.payload) for r_, m_ in p.RTCMReader(io.BytesIO(bad), validate=0, quitonerror=q_, errorhandler=seen.append, labelmsm=lab_)]
+                    except Exception as e:  # noqa
+                        got_ = repr(e)
+                    try:          # the same mode without a handler (raise mode legitimately raises at frames that do not parse)
+                        ref_ = [(r_, None if m_ is None else m_.payload) for r_, m_ in p.RTCMReader(io.BytesIO(bad), validate=0, quitonerror=q_, labelmsm=lab_)]
+                    except Exception as e:  # noqa
+                        ref_ = repr(e)
+                    em.direct_evaluations += 1
+                    if got_ != ref_:
+                        em.violation("C17: with validation off, a registered error handler and mode %d the reader does not return the frames it returns without a handler (%s)" % (
+                            q_, got_ if isinstance(got_, str) else "%s vs %s frames" % (len(got_), len(ref_) if isinstance(ref_, list) else ref_)), {"stream": bad.hex(), "cfg": [0, q_, lab_, True], "note": "errorhandler registered"}, {})
+                        break
             # several readers alive at once, configured differently, read in turn: each keeps ITS options
             if it % 2 == 0:
                 check_live(em, p, "C17", [(bad, (0, 0, lab_, True), None), (bad, (1, 0, lab_, True), None), (bad, (1, 0, 3 - lab_, False), None),
@@ -1181,7 +1208,28 @@ def main():
                 if rng.random() < 0.6:
                     evs.append(None)
             res = add_sock_case(em, p, evs, (1, 0, 1, True), len(items) + len(evs) + 3, "segments interleaved with timeouts / OSError")
-        em.samples = [{"segmentations": "all-at-once, byte-wise, random cuts, with timeouts"}]
+        # the same with chunked transfer encoding switched on and chunks spread over several receives (a receive that completes no chunk is
+        # not the end of the stream): reader over the socket == reader over a file holding the decoded bytes
+        for it in range(10 if thorough else 4):
+            data, items = mixed_stream(tabs, rng, rng.randrange(2, 6), ["frame", "frame", "nmea", "ubx", "noise"], None)
+            data = data[:2500]
+            want = [(r[1], None if r[2] is None else r[2].payload) for h, r in run_reader(p, FStream(data), (1, 0, 1, True), len(items) + 2)[0] if r[0] == "Y"]
+            body = b""
+            i = 0
+            while i < len(data):
+                j = min(len(data), i + rng.choice([40, 120, 400]))
+                body += b"%x\r\n" % (j - i) + data[i:j] + b"\r\n"
+                i = j
+            body += b"0\r\n\r\n"
+            for seglen in (7, 20, 33):
+                segs = [body[k_:k_ + seglen] for k_ in range(0, len(body), seglen)]
+                res = add_sock_case(em, p, segs, (1, 0, 1, True), len(items) + 3, "chunked body in %d-byte receives (chunks span several receives)" % seglen, chunked=True, bufsize=rng.choice([16, 64, 4096]))
+                em.direct_evaluations += 1
+                got = [(r[1], None if r[2] is None else r[2].payload) for h, r in res if r[0] == "Y"]
+                if got != want:
+                    em.violation("C11: reader over a chunked socket whose chunks span several receives returns different messages than over a file",
+                                 {"recv_events": [x.hex() for x in segs], "chunked": True, "decoded": data.hex()}, {"returned": len(got), "expected": len(want)})
+        em.samples = [{"segmentations": "all-at-once, byte-wise, random cuts, with timeouts; chunked bodies in small receives"}]
 
     elif prop == "C13":
         # the same bytes through many reader objects (file- and socket-backed, interleaved with readers over OTHER data):
